@@ -36,7 +36,9 @@ func NewGuarded(n int, rightAlign bool) *Guarded {
 	body := all[page : (pages+1)*page]
 	if rightAlign {
 		off := len(body) - n
-		off &^= 7 // keep 8-byte alignment for word views
+		if n%8 == 0 {
+			off &^= 7 // keep 8-byte alignment for word views
+		}
 		g.Data = body[off : off+n : off+n]
 	} else {
 		g.Data = body[0:n:n]
